@@ -14,6 +14,8 @@ mod c11;
 mod c12;
 mod c14;
 mod c17;
+mod c18;
+mod vbuild;
 mod c19;
 mod c20;
 mod common;
@@ -29,6 +31,10 @@ fn main() {
     let args: Vec<String> = std::env::args().collect();
     if args.len() < 2 {
         usage();
+    }
+    if args[1] == "--vbuild" {
+        vbuild::main(&args[2]);
+        return;
     }
     if args[1] == "--worker" {
         if args.len() < 3 {
@@ -86,6 +92,7 @@ fn main() {
             "C12" => c12::run(ctx),
             "C14" => c14::run(ctx),
             "C17" => c17::run(ctx),
+            "C18" => c18::run(ctx),
             "C19" => c19::run(ctx),
             "C20" => c20::run(ctx),
             _ => {
